@@ -230,8 +230,23 @@ package web
 //@   pure
 //@ assumed json.Unmarshal
 //@   modifies Query.*, JavascriptQuery.*, server.RelatedFrom.*
-//@ assumed web.decodeCont
-//@   pure
+// every continuation token is decoded into its own structure (one per start point, in order); every non-nil continuation
+// is encoded, in order
+//@ unit web.decodeCont
+//@   prop C03
+//@   ghost decodedG slice
+//@   ensures [C03:one-decoded-continuation-per-token] ret1 == nil ==> len(ret0) == len(continuations)
+//@   ensures [C03:every-token-gets-its-own-structure] ret1 == nil ==> (forall a int, b int :: 0 <= a && a < b && b < len(ret0) ==> ret0[a] != ret0[b]) && (forall a int :: 0 <= a && a < len(ret0) ==> ret0[a] != nil)
+//@   at call DecodeString#1 before
+//@     assert [C03:the-token-at-hand-is-decoded] $arg1 == continuations[$i1 + 1]
+//@   at call DecodeString#1
+//@     ghost decodedG := $result0
+//@   at call Unmarshal#1 before
+//@     assert [C03:the-structure-is-filled-from-the-decoded-token] $arg0 == decodedG && cast($arg1, "*server.RelatedFrom") == out
+//@   loop 1
+//@     invariant -1 <= $i && $i < len(continuations) && len(relatedFroms) == len(continuations) && !foreign(relatedFroms)
+//@     invariant forall a int :: 0 <= a && a <= $i ==> relatedFroms[a] != nil && !foreign(relatedFroms[a]) && allocated(relatedFroms[a])
+//@     invariant forall a int, b int :: 0 <= a && a < b && b <= $i ==> relatedFroms[a] != relatedFroms[b]
 //@ assumed web.encodeCont
 //@   pure
 //@ assumed (*server.Store).GetGlobalContext
